@@ -86,6 +86,7 @@ def alphabet():
         'split_iiv': pm.split_joint_distribution,
         'covariate': covariate, 'fix_first': fix_first, 'set_inits': inits,
         'mu_ref': pm.mu_reference_model,
+        'tad': pm.add_time_after_dose,
     }
 
 
@@ -99,7 +100,8 @@ REFUSALS = (ValueError, NotImplementedError, KeyError, TypeError)
 def run_history(case):
     if not _W:
         _init()
-    start, ops = case
+    start, ops = case[0], case[1]
+    sibling = case[2] if len(case) > 2 else None
     corpus, nmcompare, nmref, semeq, C07 = _W['corpus'], _W['nmcompare'], _W['nmref'], _W['semeq'], _W['C07']
     out = dict(case=case, results=[], status='ok', queries=0, solver_s=0.0, stats={})
     try:
@@ -111,6 +113,13 @@ def run_history(case):
         out['status'] = 'start-unreadable: dataset file missing in the test data'
         return out
     alpha = alphabet()
+    if sibling is not None:
+        # a sibling derived from the same base model and then discarded must not influence this history (models are
+        # values; derived models share the DataFrame of their base)
+        try:
+            alpha[sibling](m)
+        except Exception:  # noqa
+            pass
     try:
         for op in ops:
             m = alpha[op](m)
@@ -199,7 +208,7 @@ def replay(path):
     with open(path) as f:
         d = json.load(f)
     c = d['replay']['case']
-    res = run_history((c[0], tuple(c[1])))
+    res = run_history((c[0], tuple(c[1])) + tuple(c[2:]))
     bad = [(o, dd) for o, v, dd in res['results'] if v == 'violated']
     print(json.dumps(dict(case=res['case'], status=res['status'], violated=bad), default=str, indent=1))
     return 1 if bad else 0
@@ -231,6 +240,9 @@ def main():
         rest = [c for c in cases if len(c[1]) == 2]
         rnd.shuffle(rest)
         cases = first + rest
+    sib = [(s0, (o,), sb) for s0 in starts[:2] for sb in ('zo_abs', 'seq_abs', 'add_periph')
+           for o in ['tad'] + QUICK_OPS[:12]]
+    cases = cases[:40] + sib + cases[40:]
     nproc = int(os.environ.get('VERIF_JOBS', 0)) or min(16, os.cpu_count() or 4)
     t0 = time.time()
     stats = dict(unsat=0, sat_confirmed=0, sat_unreplayable=0, unknown=0, unsupported=0)
@@ -273,14 +285,15 @@ def main():
             run.add(fam, 'discharged', 0, dict(equalities=c))
     # shortest history first; each violation is matched against the known findings; unknown ones: one VIOLATION line
     # per (last operation, obligation family)
-    viol.sort(key=lambda x: (len(x[0][1]), str(x[0])))
+    viol.sort(key=lambda x: (len(x[0][1]) + len(x[0]) - 2, str(x[0])))
     if os.environ.get('VERIF_DUMP'):
         with open(os.environ['VERIF_DUMP'], 'w') as f:
             for case, ob, detail in viol:
                 f.write(json.dumps(dict(case=case, ob=ob, detail=detail), default=str) + '\n')
     reported = set()
     for case, ob, detail in viol:
-        key = f'{case[0]} :: {",".join(case[1])} :: {ob} :: {(detail or {}).get("error", "")}'
+        sibs = f'sibling={case[2]}|' if len(case) > 2 else ''
+        key = f'{case[0]} :: {sibs}{",".join(case[1])} :: {ob} :: {(detail or {}).get("error", "")}'
         e = run.match_known(key)
         if e is not None:
             if e['id'] not in [k for k, _ in run.known_hits]:
@@ -290,7 +303,7 @@ def main():
         if cls in reported:
             continue
         reported.add(cls)
-        v = run.report_violation(f'{cls[0]}:{cls[1]}', key, dict(kind='C02', case=[case[0], list(case[1])]),
+        v = run.report_violation(f'{cls[0]}:{cls[1]}', key, dict(kind='C02', case=[case[0], list(case[1])] + list(case[2:])),
                                  f'{case}: {ob}: ' + json.dumps(detail, default=str)[:700])
         run.add(f'{ob} @ {case}', v, 0, detail)
     run.functions = ['model.code / update_source', 'update_ode_system', 'new_advan_trans', 'pk_param_conversion',
